@@ -20,3 +20,8 @@ package util
 //@   props C09
 //@   trusted
 //@   pure
+
+//@ fn LogErr(action, err)
+//@   props C02
+//@   trusted
+//@   noeffect
